@@ -211,7 +211,7 @@ func cmdCheck(args []string) int {
 		if h.SolverMs[ti] > 0 {
 			solverMs = h.SolverMs[ti]
 		}
-		nSamples := 3 + 7*ti
+		nSamples := 6 + 18*ti
 		if h.Samples[ti] > 0 {
 			nSamples = h.Samples[ti]
 		}
